@@ -375,8 +375,17 @@ def c04_program(r, depth=2):
             s = f + " " + a + ")"
         else:
             s = f + "(" + a + ")"
+    elif k == 6 and r.randrange(2):  # branches that are PIPELINES of constants (a rewrite meant for single constants must not fire on them)
+        cp = lambda: r.choice(["1|2|3", '"a"|length|5', "{}|.a|1", "null|not|7", "[1]|.[0]|2", "1|2", "1", ".", "$x", "1|.|3", "(1,2)|3|4", '"a"|"b"|"c"'])
+        s = r.choice(["if %s then %s else %s end", "if %s then %s elif . then %s else 4 end", "[.[]? | if %s then %s else %s end]", "{a: 7, b: (if %s then %s else %s end)}", "if %s then %s else %s end | . + 1"]) % (
+            r.choice([".", "true", "false", ".a", "$x == 2"]), cp(), cp())
     elif k == 6:  # if with constant branches / conditions
         s = "if " + r.choice([".", ".a", "true", "null", "1", "(true,false)", "empty", ". == 1", "$x"]) + " then " + r.choice([lit(), near()]) + r.choice(["", " elif . then " + lit()]) + r.choice(["", " else " + lit(), " else " + near(), " else . end | 1 | if . then 2"]) + " end"
+    elif k == 7 and r.randrange(2):  # destructuring bindings of the identity inside path expressions and updates
+        pat = r.choice(["[$y]", "{a: $y}", "[$y, $z]", "{a: [$y]}", "{$a}", "[$y] ?// $y", "{(\"a\", \"b\"): $y}", "$y"])
+        src_ = r.choice([".", ".", ".", ".a", "(., empty)", ".[0]?"])
+        body = r.choice([".[1]", ".a", ".[0]", ".b", "$y", ".[$y]?", "select(. != null) | .[0]?", "."])
+        s = r.choice(["[path(%s as %s | %s)]", "(%s as %s | %s) |= 9", "try path(%s as %s | %s) catch \"invalid\"", "del(%s as %s | %s)?", "(%s as %s | %s) = 1", "[paths(%s as %s | %s)]?"]) % (src_, pat, body)
     elif k == 7:  # bindings whose source is identity / one instruction
         s = r.choice([". as $y | $y", ". as [$y] | $y", ".a as $y | $y, .", "1 as $y | [$y, .]", ". as {a: $y} | $y", ". as $y | . as $z | [$y, $z]", "(.a, .b) as $y | $y", ". as [$y] ?// $y | $y", "$x as $y | $y + 1", "empty as $y | 1", ". as $y | reduce .[]? as $z ($y; .)", "[.[]? as $y | $y]"])
     elif k in (8, 9):  # self calls in and out of tail position
@@ -436,6 +445,20 @@ def scope_program(r):
     if r.randrange(3) == 0:
         holes[r.randrange(n)] = inner()
     return 'def f: "outer"; def g(p): ["G", p]; def h(a; b): [a, b]; "V" as $v | ' + t % tuple(holes)
+
+
+def bindpath_programs():
+    """Destructuring bindings inside path expressions and updates: complete product over sources, patterns, bodies and path consumers."""
+    out = []
+    for src_ in [".", ".a", "(., empty)", ".[0]?", "(.[0:2])", "first(., 1)"]:
+        for pat in ["[$y]", "{a: $y}", "[$y, $z]", "{a: [$y]}", "{$a}", "[$y] ?// $y", "{(\"a\", \"b\"): $y}", "$y", "[[$y]]", "{a: {b: $y}}"]:
+            for body in [".[1]", ".a", ".[0]", ".b", "$y", ".[$y]?", "select(. != null) | .[0]?", ".", ".[1:]", ".a.b"]:
+                if "$y" in body and "$y" not in pat:
+                    continue
+                for form in ["[path(%s as %s | %s)]", "(%s as %s | %s) |= 9", "try path(%s as %s | %s) catch \"invalid\"", "del(%s as %s | %s)?", "(%s as %s | %s) = 1", "[paths(%s as %s | %s)]?",
+                             "try ((%s as %s | %s) += 1) catch \"invalid\"", "[path(.. | %s as %s | %s)?] | length"]:
+                    out.append(form % (src_, pat, body))
+    return out
 
 
 def lookalike_programs():
